@@ -1,2 +1,107 @@
-import ZlModel
-def main : IO Unit := IO.println "zldriver"
+/-
+  ZlModel.Driver — reads one operation per line on stdin, runs the model's
+  executable definitions, prints one canonical line per operation.
+-/
+import ZlModel.Proto
+import ZlModel.Framework
+import ZlModel.Scope
+import ZlModel.Generated.Tables
+open Zl Zl.Proto
+
+namespace Zl.Driver
+
+def parseTime (s : String) : Time :=
+  if s == "Z" then Time.zero
+  else match s.splitOn "." with
+    | [a, b] => ⟨a.toInt?.getD 0, b.toNat?.getD 0⟩
+    | [a] => ⟨a.toInt?.getD 0, 0⟩
+    | _ => Time.zero
+
+/-- a scripted lint, as the harness's `LintSpec` -/
+def scriptedLint (spec : String) : Option (Lint Unit Unit × String) :=
+  match spec.splitOn "," with
+  | [name, source, eff, ineff, cfg, app, body] =>
+    let configure : Unit → Stage (Option String) := fun _ =>
+      match cfg with
+      | "n" | "ok" => .ok none
+      | "err" | "tbl" => .ok (some ("CFGERR:" ++ name))
+      | _ => .panic ("boom-configure-" ++ name)
+    let applies : Unit → Stage Bool := fun _ =>
+      match app with
+      | "T" => .ok true
+      | "F" => .ok false
+      | _ => .panic ("boom-applies-" ++ name)
+    let bodyF : Unit → Body := fun _ =>
+      if body == "nil" then .nil
+      else if body == "P" then .panic ("boom-body-" ++ name)
+      else .res ((dropS body 1).toInt?.getD 0) ("d-" ++ name)
+    some ({ md := { name := name, source := source, eff := parseTime eff, ineff := parseTime ineff, description := "scripted " ++ name, citation := "verif" }
+            configure := configure, applies := applies, body := bodyF }, cfg)
+  | _ => none
+
+def parseView (s : String) : CertView :=
+  if s == "-" then default else
+  let parts := s.splitOn "/"
+  let get (k : String) : String := match parts.find? (·.startsWith (k ++ "=")) with
+    | some p => dropS p (k.length + 1)
+    | none => "-"
+  { ekus := (splitList (get "ekus") ",").map parseOid
+    policies := (splitList (get "pol") ",").map parseOid
+    emails := (splitList (get "em") ",").map (fun h => (unhex h).getD "")
+    otherNames := (splitList (get "on") ",").map (fun p => match p.splitOn ":" with
+      | [o, l] => (parseOid o, l.toNat?.getD 0)
+      | _ => ([], 0)) }
+
+def b2s (b : Bool) : String := if b then "1" else "0"
+
+def logString (cfg : String) (calls : List Call) : String :=
+  String.ofList (calls.filterMap (fun c => match c with
+    | .construct => some 'c'
+    | .configure => if cfg == "n" then none else some 'f'
+    | .applies => some 'a'
+    | .body => some 'b'))
+
+/-- insertion sort of strings (canonical order of result lines) -/
+def sortStrings (xs : List String) : List String :=
+  xs.foldl (fun acc x =>
+    let (lo, hi) := acc.span (fun y => y < x)
+    lo ++ [x] ++ hi) []
+
+def opFw (fields : List String) : String :=
+  match fields with
+  | [kindS, viewS, tsec, tnsec, lintsS] =>
+    let kind : Kind := if kindS == "cert" then .cert else if kindS == "crl" then .crl else .ocsp
+    let view := parseView viewS
+    let sc := scopeOf view
+    let target : Time := ⟨tsec.toInt?.getD 0, tnsec.toNat?.getD 0⟩
+    let specs := (lintsS.splitOn ";").filterMap scriptedLint
+    let lints := specs.map (·.1)
+    match runAll Generated.version kind sc target lints () () with
+    | .panicked _ => "panic"
+    | .returned rs =>
+      let results := sortStrings (rs.results.map (fun p =>
+        p.1 ++ "=" ++ toString p.2.status ++ ":" ++ hexOf p.2.details ++ ":" ++ p.2.md.name ++ ":" ++ p.2.md.source))
+      -- the call log of each lint: calls made before a panic of an earlier lint are not observable when the run panics
+      let logs := sortStrings (specs.map (fun (l, cfg) => l.md.name ++ "=" ++ logString cfg (execute kind sc target l () ()).2))
+      "ok v=" ++ toString rs.version ++ " n=" ++ b2s rs.notices ++ " w=" ++ b2s rs.warnings ++ " e=" ++ b2s rs.errors ++ " f=" ++ b2s rs.fatals
+        ++ " | " ++ " ".intercalate results ++ " | " ++ " ".intercalate logs
+  | _ => "bad-op"
+
+def step (line : String) : String :=
+  match line.splitOn "\t" with
+  | "fw" :: rest => opFw rest
+  | _ => "bad-op"
+
+partial def loop (h : IO.FS.Stream) (out : IO.FS.Stream) : IO Unit := do
+  let line ← h.getLine
+  if line.isEmpty then return ()
+  let l := chomp line
+  out.putStrLn (step l)
+  loop h out
+
+end Zl.Driver
+
+def main : IO Unit := do
+  let stdin ← IO.getStdin
+  let stdout ← IO.getStdout
+  Zl.Driver.loop stdin stdout
